@@ -120,6 +120,63 @@ def gap(run, quick):
                     run.violation("Modes.rotate-raised", "Modes.rotate", {"s": s, "ell_max_modes": L}, "Modes", repr(e))
 
 
+def shared_calculator(run, quick):
+    """ONE calculator serving modes of many spin weights, ell ranges and shapes in a row (as a user who keeps a Wigner object
+    around does), in several orders — decreasing |s|, increasing |s|, shuffled — on both strategies: every result must be
+    f.D with D from a freshly built calculator."""
+    import spherical
+    import quaternionic
+    rng = run.rng
+    L = 8
+    R = helpers.random_rotor(rng)
+    Rq = quaternionic.array(R)
+    wD = spherical.Wigner(L)
+    D = wD.D(Rq).copy()
+    spins = [-3, 3, -2, 2, -1, 1, 0]
+    orders = {"decreasing-|s|": spins, "increasing-|s|": spins[::-1], "shuffled": rng.sample(spins, len(spins)), "alternating": [0, -3, 0, 2, -1, 3, 1, -2]}
+    items = {}
+    for sw in set(spins):
+        for eM in (L, L - 2):
+            if eM < abs(sw):
+                continue
+            modes = helpers.make_modes(rng, sw, eM, (2,) if sw % 2 else (), "random")
+            arr0 = modes.ndarray.copy()
+            ref = np.zeros_like(arr0)
+            for ell in range(abs(sw), eM + 1):
+                i1 = wD.Dindex(ell, -ell, -ell)
+                B = D[i1:i1 + (2 * ell + 1) ** 2].reshape(2 * ell + 1, 2 * ell + 1)
+                ref[..., ell * ell:(ell + 1) ** 2] = arr0[..., ell * ell:(ell + 1) ** 2] @ B
+            items[(sw, eM)] = (modes, arr0, ref, 64 * (eM + 2) ** 1.5 * EPS * max(float(np.max(np.abs(arr0))), 1e-300) * np.sqrt(arr0.shape[-1]))
+    for oname, order in orders.items():
+        for horner in (False, True):
+            for wname, mk in (("Wigner(L)", lambda: spherical.Wigner(L)), ("Wigner(L+2)", lambda: spherical.Wigner(L + 2))):
+                w = mk()
+                hist = []
+                for sw in order:
+                    for eM in ((L, L - 2) if oname != "alternating" else (L,)):
+                        if (sw, eM) not in items:
+                            continue
+                        modes, arr0, ref, tol = items[(sw, eM)]
+                        hist.append([sw, eM])
+                        inp = {"calculator": wname, "horner": horner, "order": oname, "requests_so_far_(s,ell_max)": list(hist), "R": list(R)}
+                        run.gap_case("rotate-shared-calculator", (oname, horner, wname, sw, eM), f"{oname}|horner={horner}")
+                        try:
+                            ra = w.rotate(modes, Rq, horner=horner).ndarray
+                        except Exception as e:   # noqa: BLE001
+                            run.violation("rotate-raised-on-valid-request", f"Wigner.rotate[horner={horner}]", inp, "Modes", repr(e)[:200])
+                            break
+                        err = float(np.max(np.abs(ra - ref)))
+                        if not (err <= tol):
+                            run.violation("rotate-differs-from-f.D", f"Wigner.rotate[horner={horner}]", inp, "sum_m' f_lm' D_m'm (D from a fresh calculator)", f"max abs err {err} > {tol}")
+                            break
+                        if not np.array_equal(modes.ndarray, arr0):
+                            run.violation("rotate-modified-input", f"Wigner.rotate[horner={horner}]", inp, "input unchanged", "changed")
+                            modes.ndarray[...] = arr0
+                    else:
+                        continue
+                    break
+
+
 def check(run):
     quick = run.tier == "quick"
     run.regenerate()
@@ -133,6 +190,7 @@ def check(run):
         cases.append((L, s, eM, helpers.random_weights(rng, s, eM)))
     run.attempt("corr:corr_rotH", kern.corr_rotH, run, cases, rotors if not quick else rotors[:14] + rotors[-3:], preps, poison=float("nan"))
     gap(run, quick)
+    run.attempt("gap:shared_calculator", shared_calculator, run, quick)
     from .. import layouts
     import quaternionic as _q
     import spherical
